@@ -402,6 +402,16 @@ def run_keygen(n, f, ctx):
             ctx.count("keys-generated")
             if n_.bit_length() != bits:
                 f[f"C18:rsa-key-size:{bits}"] = f"generate_key({bits}) returned a key of {n_.bit_length()} bits"
+    # the requested size holds whatever else the caller says about the key (an alg parameter is a label, not a size)
+    for bits, alg in ((512, "HS256"), (256, "A128KW"), (128, "HS512"), (384, "A128GCMKW"), (256, "dir")):
+        for gen in (lambda: OctKey.generate_key(bits, {"alg": alg}), lambda: JWKRegistry.generate_key("oct", bits, {"alg": alg, "use": "sig" if alg.startswith("HS") else "enc"})):
+            try:
+                raw = rb.decode(gen().as_dict()["k"])
+            except Exception:
+                continue
+            ctx.count("keys-generated")
+            if len(raw) * 8 != bits:
+                f[f"C18:oct-key-size:with-alg-parameter"] = f"generate_key({bits}, alg={alg}) gave {len(raw) * 8} bits"
     for bits in (72, 96, 520):
         try:
             raw = rb.decode(OctKey.generate_key(bits).as_dict()["k"])
